@@ -37,6 +37,13 @@ func (b *ProcessLogBuffer) Write(message string) {
 }
 
 func (b *ProcessLogBuffer) GetLogRange(offsetFromEnd, limit int) []string {
+	b.mx.Lock()
+	defer b.mx.Unlock()
+	return b.getLogRange(offsetFromEnd, limit)
+}
+
+// getLogRange expects the buffer lock to be held by the caller
+func (b *ProcessLogBuffer) getLogRange(offsetFromEnd, limit int) []string {
 	if len(b.buffer) == 0 {
 		return []string{}
 	}
@@ -63,13 +70,15 @@ func (b *ProcessLogBuffer) GetLogRange(offsetFromEnd, limit int) []string {
 }
 
 func (b *ProcessLogBuffer) GetLogLength() int {
+	b.mx.Lock()
+	defer b.mx.Unlock()
 	return len(b.buffer)
 }
 
 func (b *ProcessLogBuffer) GetLogsAndSubscribe(observer LogObserver) {
 	b.mx.Lock()
 	defer b.mx.Unlock()
-	observer.SetLines(b.GetLogRange(observer.GetTailLength(), 0))
+	observer.SetLines(b.getLogRange(observer.GetTailLength(), 0))
 	b.observers[observer.GetUniqueID()] = observer
 }
 
